@@ -36,6 +36,7 @@
 -/
 import SA.Proofs.DnsResp
 import SA.Proofs.DnsRespAll
+import SA.Gen.PkgVars
 namespace SA.DnsResp
 open SA.DnsWire SA.WireCodec SA.DnsReq
 
@@ -540,3 +541,16 @@ end SA.DnsResp
 #print axioms SA.DnsResp.C10_multi_a_aaaa
 #print axioms SA.DnsResp.C10_a_overflow_reported
 #print axioms SA.DnsResp.C10_no_silent_corruption
+
+namespace SA.PkgState
+/-- **no_hidden_process_state**: the models of this property are functions of their arguments and of the objects they are
+    handed; the packages they model keep no package-level variables besides these (regenerated inventory: error
+    sentinels, tables, compiled patterns, the two session time-outs).  A new package-level variable — a counter, a cache, a
+    scratch buffer, a shared map, a registry — would make later calls depend on earlier ones, or concurrent calls on each
+    other, outside anything a per-call comparison of model and code can see. -/
+theorem C10_no_hidden_process_state :
+    Gen.pkgVarNames_dnscommands = ["BadCodec", "BadCommand", "BadConn", "BadErrors", "BadFrag", "BadIp", "BadLen", "BadServerFull", "BadUser", "BadVersion", "CmdError", "CmdLogin", "CmdPacket", "CmdSetOptions", "CmdTestDownstreamEncoder", "CmdTestDownstreamFragmentSize", "CmdTestMultiQuery", "CmdTestUpstreamEncoder", "CmdVersion", "Commands", "Digits", "ErrTimeout", "LazyModeOk", "NoData", "VersionNotOk", "VersionOk"] ∧
+    Gen.pkgVarNames_dnsutil = ["DotRegex", "DownloadCodecCheck", "ErrCaseSwap", "ErrDeadlineExceeded", "ErrInvalidSequenceNumber", "ErrStreamBroken", "ErrTooLong", "QueryTypeA", "QueryTypeAAAA", "QueryTypeCname", "QueryTypeMx", "QueryTypeNull", "QueryTypePrivate", "QueryTypeSrv", "QueryTypeTxt", "QueryTypesByPriority"] := by decide
+end SA.PkgState
+
+#print axioms SA.PkgState.C10_no_hidden_process_state
